@@ -382,6 +382,9 @@ class Body:
         for l in list(cand):
             if any(fw[2]["l"] == l for fw in self.field_writes):
                 cand.discard(l)
+        # a local that is ever borrowed mutably can change behind our back (`opt.take()`, `&mut flag` handed to a callee)
+        cand -= self.mut_borrowed()
+        seeds -= self.mut_borrowed()
         changed = True
         while changed:
             changed = False
@@ -687,6 +690,19 @@ class Body:
         if len(ds) <= 6:
             return ("phi", l, self.lname(l), [self._def_expr(d, seen2, _depth + 1) for d in ds])
         return ("local", l, self.lname(l))
+
+    def mut_borrowed(self):
+        """Locals of which a `&mut` (of the whole local or a part) is taken somewhere in this body."""
+        if getattr(self, "_mb", None) is None:
+            out = set()
+            for b in self.blocks:
+                if b["cleanup"]:
+                    continue
+                for st in b["stmts"]:
+                    if st["k"] == "assign" and "ref" in st["rv"] and st["rv"].get("mut") and "*" not in st["rv"]["ref"]["p"][:1]:
+                        out.add(st["rv"]["ref"]["l"])
+            self._mb = out
+        return self._mb
 
     def _closure_mutated(self):
         """User variables whose `&mut` is captured by a closure / coroutine built in this body (the closure may assign them)."""
